@@ -137,6 +137,8 @@ func (u *unparser) stmt(n *Node) error {
 	switch n.K {
 	case "text":
 		u.buf.Write(n.D)
+	case "syntaxerror":
+		u.w("{% if %}") // a template that loads but does not parse
 	case "comment":
 		u.w("{#")
 		u.buf.Write(n.D)
